@@ -225,7 +225,7 @@ class BackupManager:
 
     @staticmethod
     def get_task(task_names, file_path):
-        """ Return the task if the file name contains a task_xxx where xxx is in task_names.
+        """ Return the task if the file name contains a task_xxx or task-xxx (BIDS) where xxx is in task_names.
 
         Parameters:
             task_names (list):  List of task names (without the `task_` prefix).
@@ -238,7 +238,7 @@ class BackupManager:
 
         base = os.path.basename(file_path)
         for task in task_names:
-            if ('task_' + task) in base:
+            if ('task_' + task) in base or ('task-' + task) in base:
                 return task
         else:
             return ''
